@@ -192,6 +192,102 @@ theorem lexAll_unfold (s : List Byte) :
       | zero => omega
       | succ n => simp
 
+/-! ### token values are slices of the input -/
+
+theorem take_takeWhile_length {α : Type} (p : α → Bool) (l : List α) :
+    l.take (l.takeWhile p).length = l.takeWhile p := by
+  induction l with
+  | nil => simp
+  | cons a l ih =>
+    simp only [List.takeWhile_cons]
+    split
+    · simp [ih]
+    · simp
+
+theorem punct_minus {b : Byte} (h : punct b = .minus) : b = 45 := by
+  unfold punct at h
+  split at h <;> first | rfl | cases h
+
+theorem punct_bang {b : Byte} (h : punct b = .bang) : b = 33 := by
+  unfold punct at h
+  split at h <;> first | rfl | cases h
+
+theorem startOf_punct {b : Byte} {x : Start} (h : startOf b = x) (h1 : x ≠ .letter) (h2 : x ≠ .digit) (h3 : x ≠ .ws) :
+    punct b = x := by
+  unfold startOf at h
+  split at h
+  · exact absurd h.symm h1
+  · split at h
+    · exact absurd h.symm h2
+    · split at h
+      · exact absurd h.symm h3
+      · exact h
+
+theorem nextIsEq_cons {rest : List Byte} (h : nextIsEq rest = true) : ∃ r, rest = 61 :: r := by
+  unfold nextIsEq at h
+  split at h
+  · exact ⟨_, rfl⟩
+  · cases h
+
+theorem closedBy_cons {q : Byte} {l : List Byte} (h : closedBy q l = true) : ∃ r, l = q :: r := by
+  cases l with
+  | nil => simp [closedBy] at h
+  | cons c r => simp only [closedBy, beq_iff_eq] at h; exact ⟨r, by rw [h]⟩
+
+theorem quotedAt_val (k : Kind) (q : Byte) (rest : List Byte) :
+    (quotedAt k q rest).1.val = (q :: rest).take (quotedAt k q rest).2 := by
+  unfold quotedAt
+  split
+  · rename_i h
+    obtain ⟨r, hr⟩ := closedBy_cons h
+    have e : rest = rest.takeWhile (inLiteral q) ++ q :: r := by
+      rw [← hr, List.takeWhile_append_dropWhile]
+    simp only [List.take_succ_cons, List.cons.injEq, true_and]
+    generalize List.takeWhile (inLiteral q) rest = tw at e ⊢
+    subst e
+    rw [show tw.length + 1 = (tw ++ [q]).length by simp]
+    rw [show tw ++ q :: r = (tw ++ [q]) ++ r by simp]
+    rw [List.take_left]
+  · simp [take_takeWhile_length]
+
+/-- the value of a token is the slice of the input it was read from -/
+theorem tokenAt_val (s : List Byte) : (tokenAt s).1.val = s.take (tokenAt s).2 := by
+  cases s with
+  | nil => simp [tokenAt, eofTok]
+  | cons b rest =>
+    simp only [tokenAt]
+    split
+    · simp [eofTok]
+    · simp
+    · rename_i hs
+      have hb := punct_minus (startOf_punct hs (by simp) (by simp) (by simp))
+      subst hb
+      unfold minusAt; split
+      · simp [take_takeWhile_length]
+      · simp
+    · unfold cmpAt; split
+      · rename_i h; obtain ⟨r, hr⟩ := nextIsEq_cons h; subst hr; simp
+      · simp
+    · rename_i hs
+      have hb := punct_bang (startOf_punct hs (by simp) (by simp) (by simp))
+      subst hb
+      unfold bangAt; split
+      · rename_i h; obtain ⟨r, hr⟩ := nextIsEq_cons h; subst hr; simp
+      · simp [eofTok]
+    · exact quotedAt_val _ _ _
+    · exact quotedAt_val _ _ _
+    · simp [wordAt, take_takeWhile_length]
+    · simp [numberAt, take_takeWhile_length]
+    · simp [eofTok]
+    · simp [eofTok]
+
+/-- `NextToken` splits what it consumed into skipped junk and the token's value -/
+theorem nextToken_slice (s : List Byte) :
+    s.take (nextToken s).2 = s.take (junkLen s) ++ (nextToken s).1.val := by
+  simp only [nextToken]
+  rw [tokenAt_val (s.drop (junkLen s))]
+  rw [List.take_add]
+
 /-- shape of the token stream: finitely many non-EOF tokens, then exactly one EOF; at most one token
 per input byte -/
 theorem lexAll_shape (n : Nat) : ∀ s : List Byte, s.length ≤ n →
